@@ -104,7 +104,7 @@ def run_property(prop, tier, seed, replay=None, shards=None, quiet=False):
         os.makedirs(rdir, exist_ok=True)
         h = hashlib.sha256((key + v["case"]).encode()).hexdigest()[:12]
         path = os.path.join(rdir, f"{key}-{h}.json")
-        with open(path, "w") as f:
+        with open(path, "w", encoding="utf-8", errors="backslashreplace") as f:  # names may hold bytes that are not UTF-8
             json.dump({"property": prop, "tier": tier, "seed": seed, "case": v["case"], "key": key, "sig": v["sig"], "detail": v["detail"], "occurrences": len(vs)}, f, indent=1, ensure_ascii=False)
         lines.append(f"VIOLATION property={prop} replay={path} key={key} occurrences={len(vs)} sig={json.dumps(v['sig'], ensure_ascii=False)[:300]}")
     inconclusive = []
@@ -153,7 +153,7 @@ def run_property(prop, tier, seed, replay=None, shards=None, quiet=False):
             "violations": sum(len(v) for v in unlisted.values()),
         }
         os.makedirs(os.path.join(env.VERIF, "evidence"), exist_ok=True)
-        with open(os.path.join(env.VERIF, "evidence", prop + ".json"), "w") as f:
+        with open(os.path.join(env.VERIF, "evidence", prop + ".json"), "w", encoding="utf-8", errors="backslashreplace") as f:
             json.dump(ev, f, indent=1, ensure_ascii=False)
     if not quiet:
         for l in lines:
@@ -175,7 +175,17 @@ def run_property(prop, tier, seed, replay=None, shards=None, quiet=False):
     return 0, merged
 
 
+def _safe_stdio():
+    # file names with bytes that are not UTF-8 reach the report lines as lone surrogates
+    for st in (sys.stdout, sys.stderr):
+        try:
+            st.reconfigure(errors="backslashreplace")
+        except Exception:
+            pass
+
+
 def main(argv=None):
+    _safe_stdio()
     argv = argv if argv is not None else sys.argv[1:]
     if not argv:
         print(__doc__)
